@@ -312,7 +312,9 @@ pub fn docs_nested() -> Vec<String> {
     }
   }
   // wide groups: three group choices, more than three entries (the printer switches layout at both thresholds)
-  for w in ["a: int // b: tstr // c: bool", "int // tstr // bool", "a: int, b: tstr, c: bool, d: nil", "a: 1, b: 2 // c: 3, d: 4 // e: 5", "a: int, b: tstr, c: bool, d: nil // e: int", "a: 1, b: 2, c: 3, d: 4 // e: 5 // f: 6"] {
+  for w in ["a: int // b: tstr // c: bool", "int // tstr // bool", "a: int, b: tstr, c: bool, d: nil", "a: 1, b: 2 // c: 3, d: 4 // e: 5", "a: int, b: tstr, c: bool, d: nil // e: int", "a: 1, b: 2, c: 3, d: 4 // e: 5 // f: 6",
+    // literals holding the other quote character, and entries with nested structure, in a group of three choices
+    "\"it's\", tstr // 'say \"hi', int // bool", "a: { k: int, l: tstr } // b: [ int, tstr ] // c: int / tstr"] {
     for b in ["{ _ }", "[ _ ]", "&( _ )"] {
       out.push(format!("r = {}\n", b.replace('_', w)));
     }
